@@ -1782,6 +1782,9 @@ func (p *parsing) parseAssignment(variables []ast.Expression, tok token, canBeRa
 	if !ok {
 		panic(syntaxError(tok.pos, "unexpected %s, expecting := or = or comma", tok))
 	}
+	if len(variables) == 0 {
+		panic(syntaxError(tok.pos, "unexpected %s, expecting expression", tok))
+	}
 	vp := variables[0].Pos()
 	pos := vp.WithEnd(tok.pos.End)
 	var values []ast.Expression
